@@ -208,3 +208,46 @@ PROPS["C13"] = dict(
     assumptions=TRUST_BASE,
     stages=dict(quick=[native("dbg")], thorough=[native("dbg"), native("rel")]),
 )
+
+PROPS["C14"] = dict(
+    level="exploration",
+    technique="law monitor: the algebraic laws themselves evaluated for ALL ordered pairs of a value universe, on the Val API / binary_operator_fold and through executed programs",
+    level_text=("The stated laws (symmetry of `is`, isnt / is not as negation, mirror laws of the ordering operators incl. "
+                "error symmetry, (<= and >=) = equality where an ordering exists, logic vs truthiness, compound assignment = "
+                "plain assignment, build k / knock k restores integers and booleans) are evaluated exhaustively over all "
+                "44 x 44 ordered pairs of a universe that covers every kind and every boundary the coercions inspect. The "
+                "enumeration of the universe is complete; the universe itself is a finite sample of all values."),
+    level_note="No model is involved: the oracle is the relation between two observed results. The build/knock law is checked for integer-valued numbers with |x|+k < 2^53 and for booleans only (false for fractions in IEEE arithmetic for any implementation).",
+    rule=("cases = ordered pairs (a, b) of the universe, each evaluated at the API layer and through 9+ programs (prelude builds "
+          "arrays, NaN, -0 by statements); distinct_nontrivial = distinct ordered pairs plus distinct program texts executed."),
+    exhaustive="all ordered pairs of the 44-value universe, at both layers, in every run",
+    require=["ordered_pairs_api", "ordered_pairs_program", "law.is_symmetric", "law.is_not_is_negation",
+             "law.less_mirrors_greater", "law.error_on_one_side_iff_other", "law.le_and_ge_is_equality",
+             "law.compound_assignment_plus", "law.build_then_knock_restores", "error_symmetric_pairs",
+             "pairs_without_order"],
+    assumptions=TRUST_BASE,
+    stages=dict(quick=[native("dbg")], thorough=[native("dbg"), native("rel")]),
+)
+
+PROPS["C03"] = dict(
+    level="exploration",
+    technique="history + executable reference model: Val API exhaustively over a value universe against reference tables; generated expression programs against the reference interpreter (stdout and Ok/Err)",
+    level_text=("(a) every ordered pair of the 44-value universe through plus/subtract/multiply/divide/equals/compare and every "
+                "value through negate/is_truthy/inc/to_string_for_output, compared with explicit reference tables (all 36 kind "
+                "pairs and the value-dependent cells); printed numbers are additionally checked without the implementation's "
+                "formatter (reads back to the same bits, no exponent, minimal digits). (b) random expressions (depth <= 4, list "
+                "operands, Echo calls as evaluation-order / short-circuit witnesses) over universe-valued variables in say, "
+                "put, compound let, if/while/until conditions, call arguments, subscripts and build/knock positions; stdout and "
+                "the Ok/Err class must equal the reference interpreter's. Layer (a) is exhaustive over the universe, (b) is sampled."),
+    level_note=("The reference tables (DESIGN.md Appendix B) are my reading of the property statements and of the cells pinned by "
+                "rrss's unit tests; regions the statements leave open are don't-care (counted, only checked for crash-freedom)."),
+    rule=("cases = API cells (operator x ordered pair) and generated programs; distinct_nontrivial = distinct ordered pairs plus "
+          "distinct program texts whose stdout and outcome were compared with the model (don't-care and over-budget runs excluded)."),
+    require=["ordered_pairs_api", "api_cells_checked", "api_error_cells", "number_texts_checked", "programs",
+             "ok_outcomes_agreed", "error_outcomes_agreed", "programs_with_short_circuit", "programs_with_echo_witness",
+             "set:api_kind_cells:240", "set:program_kind_cells:300"],
+    assumptions=TRUST_BASE + ["budget: <= 20000 statements, call depth <= 64, values <= 10^5 bytes/elements (larger: discarded before rrss runs)"],
+    stages=dict(quick=[native("dbg")],
+                thorough=[native("dbg"), native("rel"),
+                          custom("miri_stage", release=False, shards=16, scale=1, name="miri:dev")]),
+)
